@@ -24,6 +24,36 @@ pub fn run(ctx: &mut Ctx) {
     std::fs::create_dir_all(&dir).unwrap();
     let pools = crate::docprops::name_pools();
     let n = if ctx.thorough { 4000 } else { 320 };
+    // environment variables the source mentions (any ALL-CAPS string literal): the program's output
+    // may not depend on them, so a third of the invocations set each of them
+    let mut env_names: Vec<String> = vec![];
+    for f in ["main.rs", "args.rs", "lib.rs", "options.rs", "parser.rs", "element.rs", "necessity.rs"] {
+        if let Ok(text) = std::fs::read_to_string(format!("/repo/src/{}", f)) {
+            let b: Vec<char> = text.chars().collect();
+            let mut i = 0;
+            while i < b.len() {
+                if b[i] == '"' {
+                    let mut j = i + 1;
+                    while j < b.len() && b[j] != '"' && b[j] != '\n' {
+                        j += 1;
+                    }
+                    let lit: String = b[i + 1..j.min(b.len())].iter().collect();
+                    if lit.len() >= 5 && lit.chars().all(|c| c.is_ascii_uppercase() || c.is_ascii_digit() || c == '_') && lit.chars().next().map_or(false, |c| c.is_ascii_uppercase()) && !env_names.contains(&lit) {
+                        env_names.push(lit);
+                    }
+                    i = j + 1;
+                } else {
+                    i += 1;
+                }
+            }
+        }
+    }
+    for extra in ["XML_SCHEMA_GENERATOR_DERIVE", "XML_SCHEMA_GENERATOR_SORT", "XML_SCHEMA_GENERATOR_PARSER", "XSG_OPTIONS", "LANG", "LC_ALL", "NO_COLOR", "CLICOLOR_FORCE", "TERM", "COLUMNS"] {
+        if !env_names.contains(&extra.to_string()) {
+            env_names.push(extra.to_string());
+        }
+    }
+    ctx.meta.push(("x_environment_variables_varied", J::A(env_names.iter().map(json::s).collect())));
     for i in 0..n {
         // ---- input file
         let in_path = dir.join(format!("in{}.xml", i));
@@ -85,15 +115,38 @@ pub fn run(ctx: &mut Ctx) {
             _ => Some(rng.pick(&["Deserialize", " ", "Debug,  PartialEq ", "serde::Serialize", "A(B)"]).to_string()),
         };
         let sort = *rng.pick(&[None, Some(false), Some(true)]); // Some(true) = name
+        // ---- the property itself, from the library called directly
+        let mut opts = if parser == Some(true) { Opts::serde_xml_rs() } else { Opts::quick_xml() };
+        if let Some(dv) = &derive {
+            opts.derive = dv.clone();
+        }
+        opts.sort_by_name = sort == Some(true);
+        let text_ok = std::str::from_utf8(&bytes).is_ok() && kind != "missing";
+        let lib: Option<String> = if text_ok {
+            let mut tab = ErrTab::default();
+            match run_impl(&[bytes.clone()], &RCfg::default(), &mut tab) {
+                ImplResult::Tree(_, e) => render(&e, &opts).ok().map(|r| format!("{}{}", HEADER, r)),
+                _ => None,
+            }
+        } else {
+            None
+        };
         // ---- output
-        let out_kind = *rng.pick(&["stdout", "stdout", "new-file", "existing-file", "uncreatable"]);
+        let out_kind = *rng.pick(&["stdout", "stdout", "new-file", "existing-file", "existing-file-crlf", "uncreatable"]);
         let out_path = dir.join(format!("out{}.rs", i));
-        let sentinel = format!("// SENTINEL {}\n{}", i, "// old content that is longer than any generated output\n".repeat(120));
+        let mut sentinel = format!("// SENTINEL {}\n{}", i, "// old content that is longer than any generated output\n".repeat(120));
+        if out_kind == "existing-file-crlf" {
+            // the file already holds the expected text, but with CRLF line endings (or only a last
+            // CRLF): it must still be rewritten exactly
+            if let Some(t) = &lib {
+                sentinel = if rng.chance(1, 2) { t.replace('\n', "\r\n") } else { format!("{}\r\n", t.trim_end_matches('\n')) };
+            }
+        }
         let _ = std::fs::remove_file(&out_path);
         let out_arg: Option<String> = match out_kind {
             "stdout" => None,
             "new-file" => Some(out_path.to_string_lossy().to_string()),
-            "existing-file" => {
+            "existing-file" | "existing-file-crlf" => {
                 std::fs::write(&out_path, &sentinel).unwrap();
                 Some(out_path.to_string_lossy().to_string())
             }
@@ -118,6 +171,20 @@ pub fn run(ctx: &mut Ctx) {
             argv.push(o.clone());
         }
         cmd.args(&argv).env_remove("RUST_LOG");
+        match i % 6 {
+            1 | 4 => {
+                for (k, name) in env_names.iter().enumerate() {
+                    cmd.env(name, *rng.pick(&["name", "unsorted", "Debug", "", "1", "serde-xml-rs", "C", "tr_TR.UTF-8"]));
+                    let _ = k;
+                }
+                hist.add("environment:variables-set");
+            }
+            2 => {
+                cmd.env_clear();
+                hist.add("environment:cleared");
+            }
+            _ => {}
+        }
         let outp = match cmd.output() {
             Ok(o) => o,
             Err(e) => {
@@ -130,30 +197,14 @@ pub fn run(ctx: &mut Ctx) {
         let stderr_nonempty = !outp.stderr.is_empty();
         // file effect
         let file_now: Option<Vec<u8>> = match out_kind {
-            "new-file" | "existing-file" => std::fs::read(&out_path).ok(),
+            "new-file" | "existing-file" | "existing-file-crlf" => std::fs::read(&out_path).ok(),
             _ => None,
         };
         let file_obs: Option<Option<Vec<u8>>> = match (out_kind, &file_now) {
             ("new-file", None) => None,
-            ("existing-file", Some(c)) if c == sentinel.as_bytes() => None,
+            ("existing-file", Some(c)) | ("existing-file-crlf", Some(c)) if c == sentinel.as_bytes() => None,
             (_, Some(c)) => Some(if c.is_empty() { None } else { Some(c.clone()) }),
             _ => None,
-        };
-        // ---- the property itself, from the library called directly
-        let mut opts = if parser == Some(true) { Opts::serde_xml_rs() } else { Opts::quick_xml() };
-        if let Some(dv) = &derive {
-            opts.derive = dv.clone();
-        }
-        opts.sort_by_name = sort == Some(true);
-        let text_ok = std::str::from_utf8(&bytes).is_ok() && kind != "missing";
-        let lib: Option<String> = if text_ok {
-            let mut tab = ErrTab::default();
-            match run_impl(&[bytes.clone()], &RCfg::default(), &mut tab) {
-                ImplResult::Tree(_, e) => render(&e, &opts).ok().map(|r| format!("{}{}", HEADER, r)),
-                _ => None,
-            }
-        } else {
-            None
         };
         let mut why: Vec<String> = vec![];
         match (&lib, out_kind) {
@@ -165,7 +216,7 @@ pub fn run(ctx: &mut Ctx) {
                     why.push("stdout is not header + library rendering + newline".into());
                 }
             }
-            (Some(text), "new-file") | (Some(text), "existing-file") => {
+            (Some(text), "new-file") | (Some(text), "existing-file") | (Some(text), "existing-file-crlf") => {
                 if exit != 0 {
                     why.push(format!("exit status {} on valid input", exit));
                 }
@@ -279,6 +330,42 @@ pub fn run(ctx: &mut Ctx) {
         evaluations += 1;
         let _ = std::fs::remove_file(&in_path);
         let _ = std::fs::remove_file(&out_path);
+    }
+    // ---- an input path that looks like an option or a convention: a file literally called `-`
+    {
+        use std::io::Write as _;
+        let ddir = dir.join("dash");
+        let _ = std::fs::create_dir_all(&ddir);
+        let doc = b"<a x=\"1\"><b>t</b></a>";
+        let mut tab = ErrTab::default();
+        let expected = match run_impl(&[doc.to_vec()], &RCfg::default(), &mut tab) {
+            ImplResult::Tree(_, e) => render(&e, &Opts::quick_xml()).ok().map(|r| format!("{}{}\n", HEADER, r)),
+            _ => None,
+        };
+        for present in [true, false] {
+            let f = ddir.join("-");
+            let _ = std::fs::remove_file(&f);
+            if present {
+                std::fs::write(&f, doc).unwrap();
+            }
+            let child = Command::new(&bin).arg("--").arg("-").current_dir(&ddir).stdin(std::process::Stdio::piped()).stdout(std::process::Stdio::piped()).stderr(std::process::Stdio::piped()).spawn();
+            let Ok(mut child) = child else { continue };
+            if let Some(mut si) = child.stdin.take() {
+                let _ = si.write_all(if present { b"" } else { doc });
+            }
+            let Ok(o) = child.wait_with_output() else { continue };
+            let exit = o.status.code().unwrap_or(-1);
+            let ok = if present { exit == 0 && Some(String::from_utf8_lossy(&o.stdout).to_string()) == expected } else { exit == 1 && o.stdout.is_empty() && !o.stderr.is_empty() };
+            hist.add(if present { "input:file-named-dash" } else { "input:missing-file-named-dash-with-xml-on-stdin" });
+            if !ok {
+                fails.push(json::obj(vec![
+                    ("check", json::s("cli-dash-input")),
+                    ("what", json::s(format!("input path `-` ({}): exit {}, stdout {} bytes, stderr {} bytes; expected {}", if present { "a file of that name exists, stdin empty" } else { "no such file, a document on stdin" }, exit, o.stdout.len(), o.stderr.len(), if present { "exit 0 and header + rendering of the FILE" } else { "exit 1, nothing on stdout" }))),
+                    ("documents", J::A(vec![json::bytes(doc)])),
+                ]));
+            }
+            let _ = std::fs::remove_file(&f);
+        }
     }
     if samples.is_empty() {
         samples.push(json::s("(see shards)"));
